@@ -166,13 +166,16 @@ def run(ctx):
     # ---- E1 ------------------------------------------------------------------
     lit = [Rec(ot=c["ot"], onames=c["onames"], st=c["st"], snames=c["snames"], alg=c["alg"], hassyn=c["hassyn"])
            for c in cases]
-    text = "MCCases == {" + ",\n".join(to_tla(c) for c in dict.fromkeys(lit)) + "}"
+    lit = list(dict.fromkeys(lit))
+    if len(lit) > 2500:       # string-heavy model: a seeded sample of the case space goes through TLC
+        lit = rng.sample(lit, 2500)
+    text = "MCCases == {" + ",\n".join(to_tla(c) for c in lit) + "}"
     mc.explore(ctx, "Pipeline", "Pipeline machine: names contract, rejection",
                constants={"Cases": "<- MCCases", "LabelOnlyInSuperSolvers": "FALSE"},
-               invariants=["NamesInv", "RejectInv", "RuleInv"], mc_text=text)
+               invariants=["NamesInv", "RejectInv", "RuleInv"], mc_text=text, timeout=1200)
     mc.refuted(ctx, "Pipeline", "LabelOnlyInSuperSolvers=TRUE",
                constants={"Cases": "<- MCCases", "LabelOnlyInSuperSolvers": "TRUE"}, invariants=["NamesInv"],
-               mc_text=text)
+               mc_text="MCCases == {" + ",\n".join(to_tla(c) for c in lit[:300]) + "}", timeout=600)
     ctx.stage("E1")
 
     # ---- E2 ------------------------------------------------------------------
